@@ -6,7 +6,7 @@ from pysym.values import G, SInt, SBool, bvv, zt, zb, Unsupported
 from vlib.ob import Ob, add
 from vlib import oracle as O
 from vlib.oracle import B, canonical, is_tuple, value_matches, FZERO, FNAN, FINF, FNINF
-from checks.fam_arith import finish, wbump, mk_tuple, FALSE, TRUE, E30, SPECIALS
+from checks.fam_arith import finish, wbump, mk_tuple, FALSE, TRUE, E30, SPECIALS, _ctx
 
 FONE = (0, 1, 0, 1)
 FNONE = (1, 1, 0, 1)
@@ -317,3 +317,244 @@ def pi_special_concrete(p, m):
     ok_hi, d2 = O.check_rounded(r, ehi, prec, rnd)
     ok = ok_lo and ok_hi
     return ok, '%s%r at prec %d, rounding %s = %s; the exact value %s*pi*2**%d must round to %s' % (fn, tuple(args), prec, rnd, got, '-' if sgn < 0 else '', sh, d1 or d2)
+
+
+# ------------------------------------------------------------------------------ exp of arguments so small that exp(x) rounds to 1 or its neighbour
+def _near_one_want(prec, sign, rnd):
+    """correct rounding at `prec` bits of a value strictly between 1 and 1 + 2**(-prec-10) (sign 0) or between
+    1 - 2**(-prec-10) and 1 (sign 1)"""
+    up = (0, (1 << (prec - 1)) + 1, 1 - prec, prec) if prec > 1 else (0, 1, 1, 1)
+    down = (0, (1 << prec) - 1, -prec, prec)
+    if not sign:
+        return up if rnd in 'cu' else FONE
+    return down if rnd in 'fd' else FONE
+
+
+def exp_near_one(p):
+    """mpf_exp(x, prec, rnd) for 0 < |x| < 2**(-prec-13+k) (k <= 1): exp(x) differs from 1 by less than 2**(-prec-12), so the
+    correctly rounded result is 1 or the neighbour of 1 on the side of x, according to the mode -- in particular a directed
+    mode never returns a value on the wrong side (what interval exp relies on).  The real code runs completely (the
+    perturbation shortcut or exp_basecase on the truncated argument); mantissa bits symbolic."""
+    from mpmath.libmp import libelefun
+    prec, k, bc, sign, rnd = p['prec'], p['k'], p['bc'], p['sign'], p['rnd']
+    wp = prec + 14
+    mag = -wp + k
+    ob = Ob(wbump(p, wp + bc + 70), timeout_s=p.get('_t', 60), max_unroll=400)
+    x = ob.mpf('x', bc, exp=mag - bc, sign=sign)
+    outs = ob.run(libelefun.mpf_exp, [x, prec, rnd])
+    want = _near_one_want(prec, sign, rnd)
+    return finish(ob, ob.prove(outs, lambda v, st: is_tuple(v, want) if isinstance(v, tuple) and len(v) == 4 else False))
+
+
+def exp_near_one_concrete(p, m):
+    from mpmath.libmp import libelefun
+    prec, k, bc, sign, rnd = p['prec'], p['k'], p['bc'], p['sign'], p['rnd']
+    wp = prec + 14
+    x = mk_tuple(m, 'x', bc, exp=-wp + k - bc, sign=sign)
+    r = libelefun.mpf_exp(x, prec, rnd)
+    want = _near_one_want(prec, sign, rnd)
+    return tuple(r) == want, 'mpf_exp(%r, %d, %r) = %r; exp(x) lies strictly between 1 and 1 %s 2**%d, whose rounding is %r' % (
+        x, prec, rnd, tuple(r), '-' if sign else '+', -prec - 12, want)
+
+
+# ------------------------------------------------------------------------------ arguments where the value is a known point +- an infinitesimal
+# fn -> (kernel name, which-argument for mpf_cos_sin, base ('x' or 'one'), direction of |value| relative to |base| as a function of
+# the sign of x: +1 larger, -1 smaller)
+_NEAR = {
+    'exp': ('mpf_exp', None, 'one', lambda s: -1 if s else +1),
+    'atan': ('mpf_atan', None, 'x', lambda s: -1),
+    'sin': ('mpf_sin', None, 'x', lambda s: -1),
+    'tan': ('mpf_tan', None, 'x', lambda s: +1),
+    'cos': ('mpf_cos', None, 'one', lambda s: -1),
+    'sinh': ('mpf_sinh', None, 'x', lambda s: +1),
+    'tanh': ('mpf_tanh', None, 'x', lambda s: -1),
+    'cosh': ('mpf_cosh', None, 'one', lambda s: +1),
+    'asinh': ('mpf_asinh', None, 'x', lambda s: -1),
+    'log1': ('mpf_log', None, 'x', lambda s: +1 if s else -1),       # argument 1 + x; log(1+x) = x - x^2/2 + ...
+}
+
+
+def near_point(p):
+    """elementary kernel at an argument so small (|x| < 2**(-prec-24)) that the exact value is x*(1 +- d) resp. 1 +- d with
+    0 < d < 2**(-prec-20): the correctly rounded result in a DIRECTED mode is the rounding of 'base plus/minus an infinitesimal'
+    (reference: textbook rounding of (base << (prec+3)) -/+ 1 with a sticky bit).  This is the regime of the kernels' perturbation
+    shortcuts; interval functions rely on the direction being right.  'log1' evaluates mpf_log at 1 + x."""
+    from mpmath.libmp import libelefun
+    from vlib.oracle import ref_round
+    fn, prec, rnd, sign, bc = p['fn'], p['prec'], p['rnd'], p['sign'], p['bc']
+    kname, _, base, dirf = _NEAR[fn]
+    ob = Ob(wbump(p, bc + 2 * prec + 90), timeout_s=p.get('_t', 60))
+    if fn == 'log1':
+        # t = +-man * 2**-k (k concrete), x = 1 + t exactly
+        k = p['k']
+        man = ob.man('x_man', bc)
+        if sign:
+            xm = V.binop(__import__('operator').sub, 1 << k, man)
+            x = (0, xm, -k, k)
+        else:
+            xm = V.binop(__import__('operator').add, 1 << k, man)
+            x = (0, xm, -k, k + 1)
+        t = (sign, man, -k, bc)
+        arg, bt = x, t
+        if k - bc < prec + 24:
+            raise Unsupported('shape not in the tiny regime')
+    else:
+        lo = -prec - 24 - p.get('span', 40)
+        e = ob.int('x_exp', lo - bc, -prec - 24 - bc)
+        x = ob.mpf('x', bc, exp=e, sign=sign)
+        arg, bt = x, x
+    outs = ob.run(getattr(libelefun, kname), [arg, prec, rnd])
+    d = dirf(sign)
+    if base == 'one':
+        bman, bexp, bbc, neg = B(1), B(0), 1, FALSE
+    else:
+        bman, bexp, bbc, neg = zt(bt[1]), zt(bt[2]), bc, z3.BoolVal(bool(sign))
+    S = prec + 3          # one unit of A is finer than an ulp of the prec-bit result
+    A = (bman << S) - (B(1) if d < 0 else B(0))
+    R = ref_round(A, TRUE, prec, rnd, neg, bbc + S - 1, bbc + S)
+
+    exact_rounding = bbc <= prec        # base representable: the perturbation shortcut must then give the correctly rounded value;
+                                        # for longer arguments only the SIDE (what enclosure needs) and 4 ulp closeness are demanded:
+                                        # mpf_perturb deliberately over-steps there
+
+    def good(val, st):
+        if not (isinstance(val, tuple) and len(val) == 4):
+            return False
+        if exact_rounding:
+            return value_matches(val, neg, R, bexp - B(S), bbc + S + 2, prec)
+        rs, rm, re, rb = [zt(c) for c in val]
+        dd = re - (bexp - B(S))
+        Rint = rm << dd
+        inrange = z3.And(dd >= B(0), dd <= B(bbc + S + 2), z3.LShR(Rint, dd) == rm)
+        below = z3.ULE(Rint, A)                 # |R| <= |true|   (true magnitude in (A, A+1))
+        above = z3.UGE(Rint, A + B(1))
+        away = {'f': neg, 'c': z3.Not(neg), 'd': FALSE, 'u': TRUE}[rnd]
+        side = z3.If(away, above, below)
+        diff = z3.If(z3.UGE(Rint, A), Rint - A, A - Rint)
+        close = z3.ULE(diff, B(1 << (bbc + S - prec + 2)))        # 4 units in the last place of a prec-bit number of base's size
+        return [z3.And(canonical(val, prec), (rs == B(1)) == neg, inrange), z3.Implies(inrange, side), z3.Implies(inrange, close)]
+    return finish(ob, ob.prove(outs, good))
+
+
+def near_point_concrete(p, m):
+    from fractions import Fraction
+    from mpmath.libmp import libelefun, libmpf
+    fn, prec, rnd, sign, bc = p['fn'], p['prec'], p['rnd'], p['sign'], p['bc']
+    kname, _, base, dirf = _NEAR[fn]
+    man = 1 if bc == 1 else m['x_man']
+    if fn == 'log1':
+        k = p['k']
+        t = (sign, man, -k, bc)
+        arg = libmpf.mpf_add(libmpf.fone, t, 0)
+        bt = t
+    else:
+        arg = bt = (sign, man, m['x_exp'], bc)
+    r = getattr(libelefun, kname)(arg, prec, rnd)
+    b = Fraction(1) if base == 'one' else O.frac_of(bt)
+    d = dirf(sign)
+    # exact value = b * (1 + d * tiny) in magnitude: any tiny below 2**(-prec-20) gives the same rounding
+    tiny = abs(b) * Fraction(1, 1 << (prec + 40))
+    exact = b + (tiny if (d > 0) == (b > 0) else -tiny)
+    if bc <= prec or base == 'one':
+        ok, det = O.check_rounded(r, exact, prec, rnd)
+    else:
+        got = O.frac_of(r)
+        side = {'f': got <= exact, 'c': got >= exact, 'd': abs(got) <= abs(exact), 'u': abs(got) >= abs(exact)}[rnd]
+        ulp = Fraction(2) ** (r[2] + r[3] - prec)
+        ulp = Fraction(2) ** (bt[2] + bc - prec)
+        ok = O.canonical_concrete(tuple(r), prec) and side and abs(got - exact) <= 4 * ulp
+        det = 'got %s, which is %s' % (got, 'on the wrong side of the exact value' if not side else 'more than 4 ulp away / not canonical')
+    return ok, '%s at %r (prec %d, rounding %s): the exact value is %s %s an infinitesimal; %s' % (
+        'log' if fn == 'log1' else fn, arg, prec, rnd, '1' if base == 'one' else 'x', 'plus' if (d > 0) == (b > 0) else 'minus', det[:300])
+
+
+# ------------------------------------------------------------------------------ the libmp wrapper honours prec= / dps= / rounding= on every path
+def wrap_kw(p):
+    """closures built by _wrap_libmp_function (mp.sqrt, mp.ln, mp.acos, ...): whatever path is taken -- real kernel, the
+    ComplexResult fallback to the complex kernel, complex argument -- the kernel is asked for the precision and rounding given
+    by the keywords, so the value handed back carries at most that many bits.  Kernels are stubs: the real kernel raises
+    ComplexResult when `domain` is 'outside', otherwise returns an arbitrary canonical mpf of exactly the precision it was
+    asked for; the complex kernel returns two such values."""
+    from mpmath.libmp import libelefun, libmpf, libmpc
+    from pysym.engine import NORMAL, RAISE
+    name, kw, argk = p['name'], p['kw'], p['arg']
+    ctxprec = p.get('ctxprec', 53)
+    want_prec = kw.get('prec', ctxprec)
+    if 'dps' in kw:
+        want_prec = libmpf.dps_to_prec(kw['dps'])
+    want_rnd = kw.get('rounding', 'n')
+    mp = _ctx(ctxprec)
+    f = getattr(mp, name)
+    cells = {c.cell_contents.__name__: c.cell_contents for c in f.__closure__ if callable(getattr(c, 'cell_contents', None)) and hasattr(c.cell_contents, '__name__')}
+    mpf_f = [v for k, v in cells.items() if k.startswith('mpf_')][0]
+    mpc_f = [v for k, v in cells.items() if k.startswith('mpc_')][0]
+    ob = Ob(wbump(p, max(ctxprec, want_prec) + 80), timeout_s=p.get('_t', 60))
+    seen = []
+
+    def fresh(tag, pr):
+        return ob.mpf('%s%d' % (tag, len(seen)), pr)
+
+    def m_real(eng, st, a, k, fr):
+        seen.append(('real', a[1], a[2] if len(a) > 2 else k.get('rnd')))
+        if argk == 'outside':
+            return [(st, RAISE, libmpf.ComplexResult('outside the real domain'))]
+        if isinstance(a[1], SInt) or not (1 <= a[1] <= 4096):
+            raise Unsupported('kernel precision not concrete')
+        return [(st, NORMAL, fresh('r', a[1]))]
+
+    def m_cplx(eng, st, a, k, fr):
+        seen.append(('complex', a[1], a[2] if len(a) > 2 else k.get('rnd')))
+        if isinstance(a[1], SInt) or not (1 <= a[1] <= 4096):
+            raise Unsupported('kernel precision not concrete')
+        return [(st, NORMAL, (fresh('cr', a[1]), fresh('ci', a[1])))]
+    ob.eng.models[mpf_f] = m_real
+    ob.eng.models[mpc_f] = m_cplx
+    x = ob.mpf('x', 7, sign=1 if argk == 'outside' else 0)
+    arg = mp.make_mpc((x, ob.mpf('y', 5))) if argk == 'complex' else mp.make_mpf(x)
+    n0 = len(ob.assume)
+    outs = ob.run(f, [arg], dict(kw))
+    G.SIDE.extend(ob.assume[n0:])
+
+    def parts(v, st):
+        if isinstance(v, mp.mpf):
+            h = st.heap.get((id(v), '_mpf_'))
+            return [h[1] if h is not None else v._mpf_]
+        if isinstance(v, mp.mpc):
+            h = st.heap.get((id(v), '_mpc_'))
+            return list(h[1] if h is not None else v._mpc_)
+        return None
+
+    def good(val, st):
+        ps = parts(val, st)
+        if ps is None:
+            return False
+        asked = all(s_[1] == want_prec and s_[2] == want_rnd for s_ in seen) and bool(seen)
+        return [z3.BoolVal(asked)] + [canonical(t, want_prec) for t in ps]
+    return finish(ob, ob.prove(outs, good))
+
+
+def wrap_kw_concrete(p, m):
+    """native replay with the real kernels: bits of every returned part <= the requested precision"""
+    from mpmath.libmp import libmpf
+    name, kw, argk = p['name'], p['kw'], p['arg']
+    ctxprec = p.get('ctxprec', 53)
+    want_prec = kw.get('prec', ctxprec)
+    if 'dps' in kw:
+        want_prec = libmpf.dps_to_prec(kw['dps'])
+    mp = _ctx(ctxprec)
+    try:
+        vals = {'outside': [-2.5, -3, -0.75, 2.5, 7], 'inside': [0.5, 0.75], 'complex': [mp.mpc(0.5, 0.25)]}[argk]
+        f = getattr(mp, name)
+        for v in vals:
+            try:
+                r = f(v, **kw)
+            except Exception:
+                continue
+            ps = [r._mpf_] if hasattr(r, '_mpf_') else list(r._mpc_)
+            for t in ps:
+                if t[3] > want_prec:
+                    return False, 'mp.%s(%r, %s) at mp.prec = %d returned a part with %d bits (> %d requested)' % (
+                        name, v, ', '.join('%s=%r' % kv for kv in kw.items()), ctxprec, t[3], want_prec)
+        return None, 'UNCONFIRMED: no sampled argument reproduces'
+    finally:
+        mp.prec = 53
